@@ -787,6 +787,10 @@ func (s *Sim) fireStepEvents(all bool) bool {
 	s.stepEvents = append(keep, s.stepEvents...)
 	if fired {
 		s.MarkDirty()
+		// new input arrived: a task that keeps consuming it is not spinning
+		for _, t := range s.tasks {
+			t.instPicks = 0
+		}
 	}
 	return fired
 }
